@@ -1,6 +1,7 @@
 import Exetera.Props.C04
 import Exetera.Lemmas.GenKernelsMapValid
 import Exetera.Lemmas.GenKernelsMapValidIndexed
+import Exetera.Lemmas.GenKernelsSafeMap
 import Exetera.Lemmas.MapValidIndexed
 import Exetera.Lemmas.GenKernelsExtents
 import Exetera.Lemmas.GenKernelsSubchunk
@@ -121,6 +122,28 @@ theorem gen_indexed_partial_spec (map_ : List Int) (smStart : Int) (sE : Nat) (i
 
 example : ordered_map_valid_indexed_partial.run [0, -1, 1] 0 3 [0, 2, 3] 0 2 [7, 8, 9] 0 [0, 0, 0] [0, 0, 0, 0] (-1) 0 0 0 0 4
     = .ok (3, 3, 3, 3, false, [2, 2, 3], [7, 8, 9, 0]) := by rfl
+
+/-! ## safe_map_values (optional scalar parameter `empty_value`, tested inside the loop) -/
+
+theorem gen_safe_map_values_ok (data m : List Int) (filt : List Bool) (e : Option Int) (r : List Int)
+    (hpos : ∀ (i : Nat) (k : Int), filt[i]? = some true → m[i]? = some k → 0 ≤ k)
+    (h : safeMapValues data m filt e 0 = .ok r) :
+    safe_map_values.run data m filt e = .ok r :=
+  safe_map_values_ok data m filt e r hpos h
+
+/-- the statement of `C04.safe_map_values_rows` for the translated kernel: with a filter of the map's length whose set rows address
+    the source, it returns normally (no subscript out of range or negative), one value per map entry — `data[map[i]]` where the
+    filter is set, the empty value (the caller's, or 0) elsewhere -/
+theorem gen_safe_map_values_rows (data m : List Int) (filt : List Bool) (e : Option Int) (hlen : filt.length = m.length)
+    (hr : ∀ (i : Nat) (k : Int), m[i]? = some k → filt[i]? = some true → 0 ≤ k ∧ k < data.length) :
+    ∃ out, safe_map_values.run data m filt e = .ok out ∧ out.length = m.length ∧
+      ∀ (i : Nat) (k : Int) (b : Bool), m[i]? = some k → filt[i]? = some b →
+        out[i]? = if b then data[k.toNat]? else some (e.getD 0) := by
+  obtain ⟨out, h1, h2, h3⟩ := C04.safe_map_values_rows data m filt e 0 hlen hr
+  exact ⟨out, safe_map_values_ok data m filt e out (fun i k hf hm => (hr i k hm hf).1) h1, h2, h3⟩
+
+example : safe_map_values.run [10, 20, 30] [2, -1, 0] [true, false, true] none = .ok [30, 0, 10] ∧
+    safe_map_values.run [10, 20, 30] [2, -1, 0] [true, false, true] (some 7) = .ok [30, 7, 10] := ⟨rfl, rfl⟩
 
 /-! ## get_valid_value_extents -/
 
